@@ -677,6 +677,7 @@ def run(ctx: Ctx):
                 "rescaling, full / sub / non-consecutive spans; in between, stds of transition / measurement shocks re-assigned or rescaled "
                 "without a new solve(), the object replaced by its copy), each filter call against the oracle of the options and "
                 "parameters in force at that call; "
+                "highly persistent stationary models (real roots 0.98-0.9995, complex pairs with modulus close to 1); "
                 "the same with one random-walk (unit-root) variable under fixed_unknown (GLS oracle); config: every case re-run "
                 "through neg_log_likelihood and with single output steps. "
                 "distinct_nontrivial = distinct (sizes, mask, flags) cases with T>1 and at least one observation (direct) / distinct "
@@ -696,6 +697,10 @@ def run(ctx: Ctx):
     rng = ctx.rng.fork("e2e")
     cases = [ks.gen_e2e_case(rng.fork(i), 8 if ctx.quick else 12) for i in range(ctx.n(40, 600))]
     run_e2e(ctx, cases, ctx.n(10, 60))
+    rng = ctx.rng.fork("e2e-persistent")
+    pcases = [ks.gen_e2e_case(rng.fork(i), 8 if ctx.quick else 12, persistent=True) for i in range(ctx.n(14, 150))]
+    for c in pcases: ctx.count("e2e:persistent_root=" + str(max(abs(x) for x in np.linalg.eigvals(np.array(c["mc"]["A1"]))).round(4)))
+    run_e2e(ctx, pcases, ctx.n(3, 20))
     rng = ctx.rng.fork("e2e-unit-root")
     ucases = [ks.gen_e2e_case(rng.fork(i), 8 if ctx.quick else 12, unit_root=True) for i in range(ctx.n(16, 200))]
     run_e2e(ctx, ucases, ctx.n(4, 30))
@@ -723,6 +728,7 @@ def search(ctx: Ctx, seeds):
     run_direct(ctx, [ks.gen_system(rng.fork(("x", i).__repr__()), unknown_init=True) for i in range(200)], "direct-unknown-init", with_model=False)
     cases = [ks.gen_e2e_case(rng.fork(("e", i).__repr__()), 10) for i in range(300)]
     run_e2e(ctx, cases, 0)
+    run_e2e(ctx, [ks.gen_e2e_case(rng.fork(("p", i).__repr__()), 10, persistent=True) for i in range(100)], 0)
     ucases = [ks.gen_e2e_case(rng.fork(("u", i).__repr__()), 10, unit_root=True) for i in range(100)]
     run_e2e(ctx, ucases, 0)
     run_config(ctx, cases[:10] + ucases[:20])
